@@ -113,7 +113,7 @@ fn build_tree(root: &Path, fs: &Value, flav: &Value, class: usize, big: bool) {
     }
     let l2 = fs["l2"].as_str().unwrap();
     if l2 != "none" && b("d") {
-        std::os::unix::fs::symlink(link_target(root, "D", l2, flav["l2"].as_str().unwrap(), class), p("t/d/l2")).unwrap();
+        std::os::unix::fs::symlink(link_target(root, "D", l2, flav["l2"].as_str().unwrap(), class), p(if fs["l2g"] == true { "t/d/g" } else { "t/d/l2" })).unwrap();
     }
 }
 
